@@ -662,6 +662,138 @@ def op_trace(m, rng):
     return None, {'facets': fs.tolist()}
 
 
+def same_mesh(a, b):
+    def tags(x):
+        return {k: (np.asarray(v).tolist(), None if getattr(v, 'ori', None) is None else np.asarray(v.ori).tolist())
+                for k, v in (x or {}).items()}
+    return (type(a) is type(b) and np.array_equal(a.p, b.p) and np.array_equal(a.t, b.t)
+            and tags(a.subdomains) == tags(b.subdomains) and tags(a.boundaries) == tags(b.boundaries)
+            and (a.subdomains is None) == (b.subdomains is None) and (a.boundaries is None) == (b.boundaries is None))
+
+
+def op_selector_forms(m, rng):
+    """restrict / remove_elements with every documented way of naming the elements (subdomain name, callable, list, tuple,
+    set, nested collection, int, True) give the same mesh as the index array they denote; facets_around / copy"""
+    nt = m.t.shape[1]
+    el = np.sort(rng.choice(nt, size=int(rng.integers(1, nt + 1)), replace=False)).astype(np.int32)
+    m = m.with_subdomains({'pick': el})
+    ref, refr = m.restrict(el), m.remove_elements(el) if len(el) < nt else None
+    mid = m.p[:, m.t].mean(axis=1)
+    thr = float(np.median(mid[0]))
+    forms = {'name': ('pick', el), 'list': (el.tolist(), el), 'tuple': (tuple(el.tolist()), el), 'set': (set(el.tolist()), el),
+             'nested': (['pick', int(el[0])], el), 'int': (int(el[0]), el[:1]), 'true': (True, np.arange(nt, dtype=np.int32)),
+             'callable': ((lambda x: x[0] < thr), np.nonzero(mid[0] < thr)[0].astype(np.int32))}
+    for nm, (sel, arr) in forms.items():
+        if len(arr) == 0:
+            continue
+        need(same_mesh(m.restrict(sel), m.restrict(arr)), f'restrict-selector:{nm}', 'differs from the index array form')
+        if len(arr) < nt:
+            need(same_mesh(m.remove_elements(sel), m.remove_elements(arr)), f'remove_elements-selector:{nm}', 'differs from the index array form')
+    need(same_mesh(m.restrict(el, return_mapping=False), ref), 'restrict-selector:return_mapping', '')
+    need(same_mesh(m.copy(), m), 'copy', 'copy() differs from the mesh')
+    # facets_around: exactly the facets with one neighbour in the set; the flag selects the neighbour inside (outside if flip)
+    inside = set(el.tolist())
+    for flip in (False, True):
+        fa = m.facets_around(el, flip=flip)
+        want = sorted(f for f in range(m.facets.shape[1])
+                      if sum(int(c) in inside for c in m.f2t[:, f] if c >= 0) == 1
+                      and sum(1 for c in m.f2t[:, f] if c >= 0) - (0) >= 1
+                      and not all(int(c) in inside for c in m.f2t[:, f] if c >= 0) or
+                      (m.f2t[1, f] == -1 and int(m.f2t[0, f]) in inside))
+        need(np.asarray(fa).tolist() == want, 'facets_around:set', lambda: f'{np.asarray(fa).tolist()} != {want}')
+        for f, o in zip(np.asarray(fa), fa.ori):
+            c = int(m.f2t[int(o), int(f)])
+            if not flip:
+                need(c in inside, 'facets_around:side', f'facet {int(f)}: flag {int(o)} selects cell {c} outside the set')
+            else:
+                need(c not in inside, 'facets_around:flip-side', f'facet {int(f)}: flag {int(o)} selects cell {c}')
+    # a tag made by facets_around survives restrict to the set as its whole boundary part
+    mt = m.with_boundaries({'around': m.facets_around(el)})
+    R = mt.restrict(el)
+    need(facet_points(R, R.boundaries['around']) == facet_points(m, np.asarray(m.facets_around(el))), 'facets_around:restrict', '')
+    return None, {'elements': el.tolist()}
+
+
+def op_rmatmul_trace(m, rng):
+    """[q] @ m (reflected operator: same order as given) and trace with mtype / project"""
+    import skfem
+    q = rand_mesh1('MeshQuad1', rng, integer=True, holes=False, size=[2, 2])
+    if m.p.shape[0] == 2:
+        out = [q] @ m
+        need(len(out) == 2 and type(out[0]).__name__ == 'MeshQuad1' and type(out[1]) is type(m), 'rmatmul:order', str([type(x).__name__ for x in out]))
+        need(np.array_equal(out[0].p, out[1].p), 'rmatmul:shared-p', '')
+        for M, src in zip(out, (q, m)):
+            nv = src.elem.refdom.nnodes
+            for k in range(src.t.shape[1]):
+                need(set(cols(M.p, M.t[:nv, k])) == set(cols(src.p, src.t[:nv, k])), 'rmatmul:cell-geometry', f'cell {k}')
+    bf = m.boundary_facets()
+    if m.p.shape[0] == 2:
+        mt, fac = m.trace(bf, mtype=skfem.MeshLine1, project=lambda p: p[:1])
+        need(type(mt).__name__ == 'MeshLine1' and np.array_equal(fac, bf), 'trace:mtype', '')
+        for i, f in enumerate(bf):
+            need(sorted(mt.p[0, mt.t[:, i]].tolist()) == sorted(m.p[0, m.facets[:, f]].tolist()), 'trace:project', f'cell {i}')
+    else:
+        sel = lambda x: x[2] == m.p[2].min()
+        mt, fac = m.trace(sel, mtype=skfem.MeshTri1 if type(m).__name__ == 'MeshTet1' else skfem.MeshQuad1, project=lambda p: p[:2])
+        need(np.array_equal(fac, m.facets_satisfying(sel)), 'trace:callable', '')
+        for i, f in enumerate(fac):
+            need({tuple(c) for c in mt.p[:, mt.t[:, i]].T.tolist()} == {tuple(c) for c in m.p[:2, m.facets[:, f]].T.tolist()},
+                 'trace:project', f'cell {i}')
+    return None, {}
+
+
+def op_constructors(_m, rng):
+    """restrict / remove_elements / oriented / remove_unused_nodes on the meshes of the init_* constructors (float
+    coordinates: only index-level checks)"""
+    import skfem
+    meshes = [skfem.MeshTri1.init_circle(1), skfem.MeshTri1.init_lshaped(), skfem.MeshTri1.init_sqsymmetric(),
+              skfem.MeshTri1.init_symmetric(), skfem.MeshTet1.init_ball(1), skfem.MeshTri2.init_circle(1)]
+    meshes += [getattr(skfem, c).init_refdom() for c in ('MeshTri1', 'MeshQuad1', 'MeshTet1', 'MeshHex1', 'MeshWedge1', 'MeshTri2',
+                                                          'MeshQuad2')]
+    meshes += [skfem.MeshTet2.init_ball(1)]
+    meshes += [skfem.MeshTri1() * skfem.MeshLine(np.array([0., 1., 3.])), skfem.MeshLine(np.array([0., 1., 3., 6.]))]
+    for m in meshes:
+        name = type(m).__name__
+        m = m.with_defaults() if name not in ('MeshWedge1',) and m.t.shape[1] > 1 and name != 'MeshLine1' else m
+        nt = m.t.shape[1]
+        el = np.sort(rng.choice(nt, size=max(1, nt // 2), replace=False)).astype(np.int32)
+        M, ix = m.restrict(el, return_mapping=True)
+        ed, ED = m.dofs.element_dofs, M.dofs.element_dofs
+        what = 'constructor-restrict:' + name
+        need(ED.shape[1] == len(el) and np.array_equal(M.p[:, ED], m.p[:, ed[:, el]]), what + ':node-geometry', '')
+        need(len(np.unique(ED)) == M.p.shape[1], what + ':unused-node', '')
+        need(np.array_equal(M.p[:, :len(ix)], m.p[:, ix]), what + ':vertex-map', '')
+        for nm, b in (m.boundaries or {}).items():
+            keptf = set(np.unique(m.t2f[:, el]).tolist())
+            need({frozenset(map(tuple, M.p[:, M.facets[:, g]].T.tolist())) for g in M.boundaries[nm]}
+                 == {frozenset(map(tuple, m.p[:, m.facets[:, f]].T.tolist())) for f in np.asarray(b).tolist() if f in keptf},
+                 what + ':boundary', nm)
+        if len(el) < nt:
+            R = m.remove_elements(el)
+            need(R.t.shape[1] == nt - len(el), 'constructor-remove_elements:' + name, '')
+        U = m.remove_unused_nodes()
+        need(np.array_equal(U.p[:, U.dofs.element_dofs], m.p[:, ed]), 'constructor-remove_unused_nodes:' + name, '')
+        if name in ('MeshTri1', 'MeshTet1'):
+            need(np.all(m.oriented().orientation() == 1), 'constructor-oriented:' + name, '')
+    return None, {}
+
+
+def op_line_surgery(_m, rng):
+    """restrict / remove_elements / + / scaled / translated on MeshLine1 (any numbering of the points)"""
+    line, cells = rand_line(rng)
+    nt = line.t.shape[1]
+    seg = lambda M: sorted(tuple(sorted(M.p[0, M.t[:, k]].tolist())) for k in range(M.t.shape[1]))
+    el = np.sort(rng.choice(nt, size=int(rng.integers(1, nt + 1)), replace=False)).astype(np.int32)
+    R = line.restrict(el)
+    need(seg(R) == sorted(tuple(sorted(line.p[0, line.t[:, k]].tolist())) for k in el), 'line-restrict:cells', '')
+    need(len(np.unique(R.t)) == R.p.shape[1], 'line-restrict:unused-point', '')
+    S = line.scaled(2).translated((3.,))
+    need(seg(S) == sorted((2 * a + 3, 2 * b + 3) for a, b in seg(line)), 'line-transform:cells', '')
+    J = line + line.translated((float(line.p[0].max() + 1),))
+    need(len(seg(J)) == 2 * nt and seg(J)[:nt] == seg(line), 'line-join:cells', '')
+    return None, {}
+
+
 # which operations apply to which class
 OPS = {
     'MeshTri1': [op_restrict, op_remove, op_transform, op_join, op_extrude, op_remove_unused, op_remove_duplicates,
